@@ -84,7 +84,9 @@ func (wl *wrappedLogger[T]) With(args ...any) Logger {
 	} else if impl, ok := wl.underlying.(interface{ With(args ...any) PlainLogger }); ok {
 		cp.underlying = impl.With(args...)
 	} else {
-		cp.args = append(wl.args, args...)
+		// The copy must not share its arguments with wl or with other loggers derived from wl, so the capacity is clipped:
+		// appending to a slice with spare capacity would write into the backing array all of them use.
+		cp.args = append(wl.args[:len(wl.args):len(wl.args)], args...)
 	}
 
 	return &cp
